@@ -364,9 +364,24 @@ pub fn processor_with_time(fs: f32, c: f32) -> GlideProcessor {
 #[derive(Debug, Clone, Serialize, Deserialize, PartialEq)]
 pub enum C14Case {
     /// fresh processor, set_time(t) with t*fs >= 100, settle at `base`, step by `delta`
-    Step { fs: f32, t: f32, base: f32, delta: f32 },
+    Step {
+        fs: f32,
+        t: f32,
+        base: f32,
+        delta: f32,
+        /// Some(x): step to x instead of base + delta (steps whose size is not an f32, e.g. -3e38 -> 3e38)
+        #[serde(default)]
+        target: Option<f32>,
+    },
     /// t < 2/fs: fastest response
-    Fast { fs: f32, t: f32, base: f32, delta: f32 },
+    Fast {
+        fs: f32,
+        t: f32,
+        base: f32,
+        delta: f32,
+        #[serde(default)]
+        target: Option<f32>,
+    },
     /// t in (10, 1000]: like 10 s
     Long { fs: f32, t: f32, delta: f32, samples: u32 },
     /// sequence of set_time calls (zeros are processed in between), then a step; compared with fresh instances
@@ -384,7 +399,7 @@ fn settle_at(g: &mut GlideProcessor, res: &mut Res, alpha: f64, base: f32, sampl
 
 pub fn run_c14(case: &C14Case, stats: &mut Stats) -> Result<CaseInfo, Failure> {
     match case {
-        C14Case::Step { fs, t, base, delta } => {
+        C14Case::Step { fs, t, base, delta, target } => {
             let fsd = *fs as f64;
             let n = *t as f64 * fsd;
             let mut g = processor_with_time(*fs, *t);
@@ -393,8 +408,15 @@ pub fn run_c14(case: &C14Case, stats: &mut Stats) -> Result<CaseInfo, Failure> {
             let mut res = Res::new();
             let neff = te * fsd;
             let y0 = if *base != 0.0 { settle_at(&mut g, &mut res, alpha, *base, (3.0 * neff).ceil() as u64 + 8) } else { 0.0 };
-            let target = *base + *delta;
+            let target = target.unwrap_or(*base + *delta);
+            if (target as f64 - *base as f64).abs() > 1e30 {
+                stats.count("label.huge_step", 1);
+            }
             let d = target as f64 - y0 as f64;
+            if d == 0.0 {
+                // no step at all (possible only for explicit targets): nothing to measure
+                return Ok(CaseInfo { nontrivial: false });
+            }
             let n10 = (neff / 10.0).round() as u64;
             let n1 = neff.ceil() as u64;
             let mut y = y0;
@@ -443,14 +465,20 @@ pub fn run_c14(case: &C14Case, stats: &mut Stats) -> Result<CaseInfo, Failure> {
             }
             Ok(CaseInfo { nontrivial: nt })
         }
-        C14Case::Fast { fs, t, base, delta } => {
+        C14Case::Fast { fs, t, base, delta, target } => {
             let fsd = *fs as f64;
             let mut g = processor_with_time(*fs, *t);
             let alpha = alpha_lb(0.0, fsd);
             let mut res = Res::new();
             let y0 = if *base != 0.0 { settle_at(&mut g, &mut res, alpha, *base, 40) } else { 0.0 };
-            let target = *base + *delta;
+            let target = target.unwrap_or(*base + *delta);
+            if (target as f64 - *base as f64).abs() > 1e30 {
+                stats.count("label.huge_step", 1);
+            }
             let d = target as f64 - y0 as f64;
+            if d == 0.0 {
+                return Ok(CaseInfo { nontrivial: false });
+            }
             let mut y = y0;
             for _ in 0..8 {
                 y = g.process(target);
